@@ -291,6 +291,28 @@ def _(c):
     c.no_raise()
 
 
+# typed numpy data: the formulas are evaluated on the NUMBERS the array holds (in double precision), not in the array's own narrow integer
+# type -- 25 Cel handed over as an int8 array is 77 degF, not 25*9 wrapped around in eight bits
+@contract(Q + ".value", ["C05"], name="Quantity.value[temperature-arrays-of-fixed-width-integers]")
+def _(c):
+    c.bound = "arrays of two elements of dtype int8 / uint8 / int16 (values symbolic in the dtype's range); units given as text, as a dict and as BaseUnits"
+    for dt in ("int8", "uint8", "int16"):
+        for a, b in [("Cel", "degF"), ("degF", "Cel"), ("Cel", "K"), ("K", "degR")]:
+            for form in ("text", "dict"):
+                def pre(bd, a=a, b=b, dt=dt, form=form):
+                    info = _np.iinfo(dt)
+                    xs = [bd.int(f"x{i}") for i in range(2)]
+                    for x in xs:
+                        bd.assume_rel(x, ">=", int(info.min)); bd.assume_rel(x, "<=", int(info.max))
+                    arr = bd.call(bd.const(_np.array), bd.list(list(xs)), dtype=bd.const(getattr(_np, dt)))
+                    q = bd.new(Q, arr, a if form == "text" else bd.dict({a: 1}))
+                    return dict(args=[q, b], env=dict(xs=xs, ua=a, ub=b, q=q, arr=arr))
+                c.scenario(f"{dt} {a}->{b} units-as-{form}", pre)
+    c.ensures("all([near(r, from_kelvin(ub, to_kelvin(ua, x)), 1000) for r, x in zip(elems(result), xs)]) and len(elems(result)) == 2", "standard-affine-formula-element-wise")
+    c.ensures("elems(arr) == xs", "the-array-handed-in-keeps-its-values")
+    c.no_raise()
+
+
 @contract(Q + ".value", ["C05"], name="Quantity.value[level-arrays]")
 def _(c):
     c.bound = "arrays of three elements (values symbolic)"
